@@ -16,6 +16,7 @@ const (
 	opCIA         // ComputeIfAbsent(k, func() arg)
 	opIter        // snapshot of both keys through Iterator
 	opComputeIf   // ComputeIf(k, pred = (v == arg2), func() arg)
+	opRemovedBoth // Removed(0, 1): one atomic step
 )
 
 type op struct {
@@ -49,6 +50,8 @@ func run(m *mutable.CopyOnWriteMap[int, int], o *op) {
 		m.Updated(o.key, o.arg)
 	case opRemoved:
 		m.Removed(o.key)
+	case opRemovedBoth:
+		m.Removed(0, 1)
 	case opUpdatedWith:
 		m.UpdatedWith(o.key, func(old fp.Option[int]) fp.Option[int] {
 			o.fcalls++
@@ -94,6 +97,9 @@ func apply(st spec, o *op) (spec, bool) {
 		return st, true
 	case opRemoved:
 		st.p[k] = false
+		return st, true
+	case opRemovedBoth:
+		st.p[0], st.p[1] = false, false
 		return st, true
 	case opUpdatedWith:
 		nv := zz.Ite(st.p[k], zz.UFInt("inc", st.v[k]), o.arg)
@@ -176,6 +182,8 @@ func scenarioOf(name string) scenario {
 		return scenario{name, [][]op{{{kind: opUpdated, key: 0, arg: sym("a")}, {kind: opUpdated, key: 1, arg: sym("b")}}, {{kind: opIter}, {kind: opSize}}}}
 	case "computeif_vs_updated":
 		return scenario{name, [][]op{{{kind: opComputeIf, key: 0, arg: sym("a"), arg2: sym("c")}}, {{kind: opUpdated, key: 0, arg: sym("b")}, {kind: opGet, key: 0}}}}
+	case "removed_both_vs_readers":
+		return scenario{name, [][]op{{{kind: opRemovedBoth}}, {{kind: opIter}, {kind: opSize}}}}
 	case "two_keys":
 		return scenario{name, [][]op{{{kind: opCIA, key: 0, arg: sym("a")}, {kind: opUpdated, key: 1, arg: sym("b")}}, {{kind: opCIA, key: 1, arg: sym("c")}, {kind: opGet, key: 0}}}}
 	}
@@ -194,6 +202,11 @@ func drive(name string, prefill bool) {
 		v := zz.Int("init")
 		m.Updated(0, v)
 		init.p[0], init.v[0] = true, v
+	}
+	if name == "removed_both_vs_readers" {
+		w := zz.Int("init1")
+		m.Updated(1, w)
+		init.p[1], init.v[1] = true, w
 	}
 	var all []*op
 	for t := range sc.tasks {
@@ -238,3 +251,4 @@ func VH_c19_cia_vs_removed()          { drive("cia_vs_removed", true) }
 func VH_c19_writer_vs_iterator()      { drive("writer_vs_iterator", false) }
 func VH_c19_computeif_vs_updated()    { drive("computeif_vs_updated", true) }
 func VH_c19_two_keys()                { drive("two_keys", false) }
+func VH_c19_removed_both_vs_readers() { drive("removed_both_vs_readers", true) }
